@@ -61,6 +61,11 @@ type Jet struct {
 	// K: set on a register that sits exactly on a kink between two smooth pieces (Abs at 0, a
 	// Min/Max tie between different functions) whose one-sided derivatives are all known.
 	K *kinkInfo
+	// Sing: the register is a constant, but on the way a local derivative was not finite (Sqrt,
+	// GammaP at 0: boundary of the domain). Held in a scalar of order 0 it has no derivative slots;
+	// if the constant operand is a magic scalar of order >= 1 with zero derivatives (a reused
+	// object), the library forms 0 * Inf and NaN is a legitimate content of the slots.
+	Sing bool
 }
 
 // kinkInfo: per derivative slot the closed interval spanned by the two one-sided derivatives,
@@ -448,7 +453,7 @@ func (m *Model) merge(a, b *Jet) (uint8, bool) {
 
 // combine1 applies f with local derivatives f[0..2] (as Q) to operand a.
 func (m *Model) combine1(a *Jet, f [3]Q) Jet {
-	c := Jet{Deps: a.Deps, Br: a.Br}
+	c := Jet{Deps: a.Deps, Br: a.Br, Sing: a.Sing}
 	c.Val = f[0]
 	if a.Status == stNonsmooth {
 		c.Status, c.Why = stNonsmooth, a.Why
@@ -469,7 +474,7 @@ func (m *Model) combine1(a *Jet, f [3]Q) Jet {
 }
 
 func (m *Model) combine2(a, b *Jet, f [6]Q) Jet {
-	c := Jet{Deps: a.Deps | b.Deps, Br: a.Br*31 + b.Br*17}
+	c := Jet{Deps: a.Deps | b.Deps, Br: a.Br*31 + b.Br*17, Sing: a.Sing || b.Sing}
 	c.Val = f[0]
 	if a.Status == stNonsmooth || b.Status == stNonsmooth {
 		c.Status, c.Why = stNonsmooth, a.Why
@@ -546,6 +551,8 @@ func (m *Model) Unary(o *OpDef, a *Jet) Jet {
 		}
 		if !m.isConst(a) {
 			c.Status, c.Why = stNonsmooth, "domain-boundary:"+o.Name
+		} else {
+			c.Sing = true
 		}
 		m.finish(&c)
 		return c
@@ -785,13 +792,24 @@ func (m *Model) ReduceOp(o *OpDef, v, w []Jet, rows int) Jet {
 		}
 		return fix(m.sum(t))
 	case "SmoothMax", "LogSmoothMax":
-		// sum x_i e^(alpha x_i) / sum e^(alpha x_i); the log-domain variant needs x_i > 0
+		// sum x_i e^(alpha x_i) / sum e^(alpha x_i); the log-domain variant needs x_i >= 0: an entry
+		// that is exactly zero (log 0 = -Inf) adds nothing to the weighted sum and e^0 = 1 to the
+		// normaliser. The function itself is smooth there, also with respect to the zero entry
+		// (d/dx_i x_i e^(alpha x_i) = 1 at 0): the full jet is demanded. (The widening of the second
+		// derivatives for the log-scale evaluation cannot be formed at such a point and is left out.)
 		al := constJet(o.Par)
 		num := make([]Jet, len(v))
 		den := make([]Jet, len(v))
+		boundary, sing := false, false
 		for i := range v {
-			if o.Name == "LogSmoothMax" && v[i].Status != stUndefined && !(v[i].Val.V-64*v[i].Val.E > 0) {
-				return undefined("domain:LogSmoothMax", deps)
+			if o.Name == "LogSmoothMax" && v[i].Status != stUndefined {
+				switch {
+				case v[i].Val.V == 0 && v[i].Val.E == 0:
+					boundary = boundary || v[i].Deps != 0
+					sing = sing || v[i].Deps == 0 // log of a constant zero: see Jet.Sing
+				case !(v[i].Val.V-64*v[i].Val.E > 0):
+					return undefined("domain:LogSmoothMax", deps)
+				}
 			}
 			ax := m.Binary(opMul, &al, &v[i])
 			den[i] = m.Unary(opExp, &ax)
@@ -799,8 +817,11 @@ func (m *Model) ReduceOp(o *OpDef, v, w []Jet, rows int) Jet {
 		}
 		n, d := m.sum(num), m.sum(den)
 		r := m.Binary(opDiv, &n, &d)
+		r.Sing = r.Sing || sing
 		if o.Name == "LogSmoothMax" && r.Status == stOK {
-			m.widenLogDomain(&r, v, &al)
+			if !boundary {
+				m.widenLogDomain(&r, v, &al)
+			}
 		}
 		return fix(r)
 	}
@@ -820,15 +841,24 @@ func (m *Model) widenLogDomain(r *Jet, v []Jet, al *Jet) {
 	type mag [maxN][maxN]float64
 	var l [2]Jet // running log-sums
 	var s [2]mag // running magnitude sums of their Hessians
+	var have [2]bool
 	for i := range v {
 		ax := m.Binary(opMul, al, &v[i])
-		lx := m.Unary(opLog, &v[i])
-		z := [2]Jet{m.Binary(opAdd, &ax, &lx), ax}
+		z := [2]Jet{{}, ax}
+		zero := v[i].Val.V == 0 && v[i].Val.E == 0 && v[i].Deps == 0
+		if !zero {
+			lx := m.Unary(opLog, &v[i])
+			z[0] = m.Binary(opAdd, &ax, &lx)
+		}
 		for q := 0; q < 2; q++ {
+			if q == 0 && zero {
+				continue // a constant zero entry: log 0 = -Inf, nothing is added to the first log-sum
+			}
 			if z[q].Status != stOK {
 				return
 			}
-			if i == 0 {
+			if !have[q] {
+				have[q] = true
 				l[q] = z[q]
 				continue
 			}
@@ -845,6 +875,9 @@ func (m *Model) widenLogDomain(r *Jet, v []Jet, al *Jet) {
 			}
 			l[q] = c
 		}
+	}
+	if !have[0] || !have[1] {
+		return // every entry a constant zero: the result is the constant 0
 	}
 	eps := math.Max(epsElem, 8*m.US)
 	f := abs(r.Val.V)
